@@ -540,3 +540,16 @@ pub fn read_json(path: &str) -> Result<J, String> {
         .map_err(|e| e.to_string())?;
     serde_json::from_str(&s).map_err(|e| format!("{}: {}", path, e))
 }
+
+
+/// Redirects this process's stderr to /dev/null (`print` statements of generated programs
+/// write there when the library runs in-process).
+pub fn discard_stderr() {
+    unsafe {
+        let devnull = libc::open(b"/dev/null\0".as_ptr() as *const libc::c_char, libc::O_WRONLY);
+        if devnull >= 0 {
+            libc::dup2(devnull, 2);
+            libc::close(devnull);
+        }
+    }
+}
